@@ -539,3 +539,42 @@ M("C09-random-tiebreak", "C09", "R9.2", PR,
 B("benign-ready-set-to-list", ["C09", "C01", "C05"], WF,
   """        none_task_set = set(filter(lambda task: task.state == BaseTaskState.NONE, self.task_list))""",
   """        none_task_set = list(filter(lambda task: task.state == BaseTaskState.NONE, self.task_list))""")
+
+# ---------------------------------------------------------------------------------------- C16
+M("C16-drop-exported-key", "C16", "R16.1", TK,
+  """need_facility=self.need_facility, target_component=""",
+  """target_component=""")
+M("C16-raw-int-state", "C16", "R16.2", PD,
+  """state=BaseComponentState(j['state']), state_record_list=""",
+  """state=j['state'], state_record_list=""")
+M("C16-drop-relink", "C16", "R16.2", PJ,
+  """            x.parent_team = self.organization.get_team_list(ID=x.parent_team)[0] if x.parent_team is not None else None
+""", "")
+M("C16-reintroduce-coercion", "C16", "R16.4", TK,
+  """        self.lst = lst
+""",
+  """        self.lst = lst if lst != 0.0 else -1.0
+""")
+M("C16-exporter-reads-unset", "C16", "R16.3", WP,
+  """max_space_size=self.max_space_size, input_workplace_list=""",
+  """max_space_size=self.max_space_size, conveyor_speed=self.conveyor_speed, input_workplace_list=""")
+M("C16-dispatch-branch-dropped", "C16", "R16.5", WF,
+  """            elif j['type'] == 'BaseSubProjectTask':""",
+  """            elif j['type'] == 'SubProjectTask':""")
+M("C16-param-not-restored", "C16", "R16.1", OG,
+  """main_workplace_id=w.get('main_workplace_id'), """, "")
+M("C16-wrong-enum-decoder", "C16", "R16.2", OG,
+  """state=BaseFacilityState(w['state']), state_record_list=[BaseFacilityState(state_num) for state_num in w['state_record_list']]""",
+  """state=BaseFacilityState(w['state']), state_record_list=w['state_record_list']""")
+M("C16-timedelta-raw-again", "C16", "R16.2", WF,
+  """unit_timedelta=datetime.timedelta(seconds=float(j['unit_timedelta'])), read_json_file""",
+  """unit_timedelta=j['unit_timedelta'], read_json_file""")
+M("C16-reader-key-typo", "C16", "R16.1", OG,
+  """cost_per_time=w['cost_per_time'], solo_working=w['solo_working'], workamount_skill_mean_map=w['workamount_skill_mean_map'], workamount_skill_sd_map=w['workamount_skill_sd_map'], facility_skill_map""",
+  """cost_per_time=w['cost'], solo_working=w['solo_working'], workamount_skill_mean_map=w['workamount_skill_mean_map'], workamount_skill_sd_map=w['workamount_skill_sd_map'], facility_skill_map""")
+M("C16-project-key-not-restored", "C16", "R16.1", PJ,
+  """        self.perform_auto_task_while_absence_time = project_json['perform_auto_task_while_absence_time']
+""", "")
+B("benign-export-dict-literal", ["C16"], PD,
+  """        dict_json_data.update(type=self.__class__.__name__, component_list=[c.export_dict_json_data() for c in self.component_list])""",
+  """        dict_json_data.update({'type': self.__class__.__name__, 'component_list': [c.export_dict_json_data() for c in self.component_list]})""")
